@@ -60,6 +60,14 @@ func idpScenario(keyLayout int, fullSession bool, vary bool) *idpRun {
 		r.req.SPSSODescriptor.KeyDescriptors = []KeyDescriptor{{Use: "signing", KeyInfo: KeyInfo{X509Data: X509Data{X509Certificates: []X509Certificate{{Data: verifTestCertB64(0, 1)}}}}}}
 	case 4: // use omitted: any-purpose key
 		r.req.SPSSODescriptor.KeyDescriptors = []KeyDescriptor{{KeyInfo: KeyInfo{X509Data: X509Data{X509Certificates: []X509Certificate{{Data: verifTestCertB64(0, 1)}}}}}}
+	case 5: // encryption certificate whose descriptor lists the algorithms the SP prefers (whatever the list, the key is advertised)
+		lists := [][]EncryptionMethod{
+			{{Algorithm: "http://www.w3.org/2001/04/xmlenc#aes128-cbc"}},
+			{{Algorithm: "http://www.w3.org/2001/04/xmlenc#aes256-cbc"}},
+			{{Algorithm: "http://www.w3.org/2009/xmlenc11#aes128-gcm"}, {Algorithm: "http://www.w3.org/2001/04/xmlenc#rsa-oaep-mgf1p"}},
+		}
+		ems := lists[verifChoose("encmethods", len(lists))]
+		r.req.SPSSODescriptor.KeyDescriptors = []KeyDescriptor{{Use: "encryption", EncryptionMethods: ems, KeyInfo: KeyInfo{X509Data: X509Data{X509Certificates: []X509Certificate{{Data: verifTestCertB64(0, 1)}}}}}}
 	}
 	r.req.ACSEndpoint = &IndexedEndpoint{Location: verifNondetString("acs.Location"), Binding: HTTPPostBinding}
 	if vary && verifChoose("acs.binding", 2) == 1 {
